@@ -102,11 +102,11 @@ CHECKS = {
              "falsifying assignment (C06_all_first). Tie: correspondence - the model's Python semantics against instrumented "
              "CPython node by node, the re-evaluator model against Visitor.recomputed_values and the message lines (objects "
              "handed to a_repr), spec_C06 on the implementation's observation.",
-        note=TB + "Partial: comprehensions and dict displays are outside the refinement theorem (correspondence only). "
+        note=TB + "Partial: comprehensions are outside the refinement theorem (correspondence only). "
              "Recorded finding D21 (names inside f-strings are not listed; C06_fstring_inner_refuted).",
         design="DESIGN.md section 6 C06"),
     "C07": dict(
-        text="Theorems: for conditions without comprehensions and dict displays the re-evaluator returns whenever Python's "
+        text="Theorems: for conditions without comprehensions the re-evaluator returns whenever Python's "
              "evaluation did (C07_no_replacement_partial) and records nothing Python did not evaluate - no operand skipped "
              "by short-circuiting is evaluated (C07_no_extra_evaluation_partial); message = location, description, text, "
              "lines (C07_message_shape); D12b exhibited (C07_speculative_refuted). Tie: correspondence with the guard shapes "
